@@ -294,6 +294,37 @@ func (w *world) staleOnly(shards []int, m, k, v string) bool {
 	return !liveHas && goneHas
 }
 
+func (w *world) explainedByDropped(shards []int, f *condT, m, k, v string) bool {
+	sel := map[int]bool{}
+	for _, sh := range shards {
+		sel[sh] = true
+	}
+	for _, sh := range shards {
+		for s := range w.gone[sh] {
+			t := w.c.Tab[s-1]
+			if t.M != m {
+				continue
+			}
+			if k != "" && ((v == "" && t.T[k] == "") || (v != "" && t.T[k] != v)) {
+				continue
+			}
+			if (f.C == "tagEq" && t.T[f.X] != f.Y) || (f.C == "tagNeq" && t.T[f.X] == f.Y) {
+				continue
+			}
+			// still live in the selected shard? then it is not a dropped series there
+			if w.live[sh][s] {
+				continue
+			}
+			for other := 1; other <= 2; other++ {
+				if other != sh && w.live[other][s] {
+					return true
+				}
+			}
+		}
+	}
+	return false
+}
+
 func (w *world) runQuery(ctx context.Context, q *queryT, exp *expT) (msg string, got, want interface{}, pats []string) {
 	text := w.condText(q)
 	var cond influxql.Expr
@@ -321,19 +352,24 @@ func (w *world) runQuery(ctx context.Context, q *queryT, exp *expT) (msg string,
 		if missing > 0 || len(extraM) == 0 {
 			return nil
 		}
-		all := true
-		for i := range extraM {
-			if !w.staleOnly(shards, extraM[i], extraK[i], extraV[i]) {
-				all = false
+		rawPath := open && (q.Filter.C == "none" || q.API == "mn")
+		if rawPath {
+			// F12: the name belongs to no live series of the selected shards, only to deleted ones
+			for i := range extraM {
+				if !w.staleOnly(shards, extraM[i], extraK[i], extraV[i]) {
+					return nil
+				}
 			}
-		}
-		if !all {
-			return nil
-		}
-		if open && q.Filter.C == "none" || open && q.API == "mn" {
 			return []string{"stale_tag_value_after_last_series_deleted"}
 		}
-		return []string{"dropped_series_still_listed_with_fine_authorizer"}
+		// per-series path: every extra name is explained by a series that was deleted from the selected shards, matches the
+		// name and the filter, and whose id is still alive in another shard (so the series file does not hide it)
+		for i := range extraM {
+			if !w.explainedByDropped(shards, &q.Filter, extraM[i], extraK[i], extraV[i]) {
+				return nil
+			}
+		}
+		return []string{"dropped_series_listed_by_measurement_and_tagkey_series_iterators"}
 	}
 	switch q.API {
 	case "mn":
